@@ -277,6 +277,14 @@ def rule_S2(ctx):
     ec = prog.func("ex_command")
     execs = list(ec.calls("ex_exec"))
     if not execs:
+        # through a helper of the file (the nesting limit moved out): the call of the helper
+        # stands for the execution
+        for c_ in ec.calls():
+            h_ = prog.resolve(ec, c_["fn"]) if c_.get("fn") else None
+            if h_ is not None and h_.file == ec.file and h_ is not ec and any(True for _ in h_.calls("ex_exec")) and \
+                    not any(True for _ in h_.calls("lbuf_modified")):
+                execs.append(c_)
+    if not execs:
         raise AnalysisBroken("ex_command no longer calls ex_exec")
     is_bump = lambda e: e != ("exit",) and is_call(ec.nodes.get(e), "lbuf_modified")
     # the bump may be skipped only while a global command is running (its depth counter is
